@@ -27,6 +27,7 @@ TECHNIQUE += '; falsy outcomes in the worker contract'
 TECHNIQUE += '; exits of the loop over pending futures lie under a stop test; same-environment rule (no worker initializer, interpreter-wide set-up only inside the worker function)'
 TECHNIQUE += '; every mapping variant active_pmap can return hands its tasks to the verified loop at most once and unchanged (R11, path-state execution)'
 LEVEL_TEXT += ' Added clause: the generator ends only when nothing is pending or the run is stopped.'
+LEVEL_TEXT += ' Added clauses (rounds 9-11): no pool-only worker initialisation; every mapping variant delegates to the verified loop at most once with unchanged tasks.'
 LEVEL_NOTE = 'Trusted: concurrent.futures.as_completed iterates over a snapshot of the futures given and yields each exactly once.'
 EXPLANATION = ('Static analysis of /repo sources, TatSu not imported. executor_pmap is executed abstractly with an "owed result" '
                'flag; every store/mutation of the pending map is enumerated.')
